@@ -212,7 +212,8 @@ def specs(with_loopy=True) -> dict[str, KindSpec]:
     add("DistributedSendRefHolder", holder, {
         "send": [make_distributed_send(x2, dest_rank=1, comm_tag=7),
                  make_distributed_send(x, dest_rank=2, comm_tag=7),
-                 make_distributed_send(x, dest_rank=1, comm_tag=8)],
+                 make_distributed_send(x, dest_rank=1, comm_tag=8),
+                 make_distributed_send(x, dest_rank=1, comm_tag=7, send_tags=frozenset({VFooTag()}))],
         "passthrough_data": [pt.make_placeholder("y2", (4, 3), f64)]})
     # ---- loopy
     if with_loopy:
